@@ -21,6 +21,7 @@ Definition run_model (m : Z) (params : list Z) (rows : list (list Z)) : list (li
   | 103%Z => run_ffi params rows
   | 106%Z => run_life params rows
   | 108%Z => run_casts params rows
+  | 117%Z => run_bindgen_cpp params rows
   | 217%Z => run_split_args params rows
   | _ => [[-3]%Z]
   end.
